@@ -18,6 +18,8 @@ func main() {
 		ezMain(os.Args[2:])
 	case "fw":
 		fwMain(os.Args[2:])
+	case "stack":
+		stackMain(os.Args[2:])
 	default:
 		fmt.Fprintln(os.Stderr, "unknown subcommand", os.Args[1])
 		os.Exit(2)
